@@ -22,7 +22,8 @@ spec (duplicate free, exactly the strings of the source, count-sorted).  Predica
 implementation's answers: `build` must not fail when the model builds; `find` of every kept feature must be the
 canonical form of the source feature (`canon`); `each` must be a duplicate free permutation of the kept ids;
 `rels` of a kept feature must be the relations that list it.  Everything else is compared with the model
-(`diff`).  Known finding class `fid-tag-value` = `hasFidTag fs` (a hypothesis of `Accepts`).
+(`diff`).  Known finding classes (each the negation of a hypothesis of `Accepts`): `fid-tag-value` = `hasFidTag fs`,
+`point-member-without-block` = `hasPointMemberWithoutBlock fs`, `list-tag-on-non-path` = `hasListTagOnNonPath fs`.
 -/
 open B6.Driver B6.Model.CompactIndex B6.Model.Records B6.Model.Varint
 namespace B6.Driver.C01
@@ -236,8 +237,12 @@ def step (st : St) (op impl : String) : St × Verdict :=
     | .error .fidTag =>
       if impl == "ok" then (st, .ok) else (st, .propfail "build-fails-on-accepted-input class=fid-tag-value")
     | .error (.panic why) =>
-      -- the model says the Go code panics on this input (outside `Accepts`)
-      if impl == "ok" then (st, .diff ("panic " ++ why)) else (st, .ok)
+      -- the model says the Go code panics on this input (outside `Accepts`): two documented classes are
+      -- valid input by any reading of the property, the rest is only compared
+      if impl == "ok" then (st, .diff ("panic " ++ why))
+      else if hasPointMemberWithoutBlock st.fs then (st, .propfail "build-fails-on-accepted-input class=point-member-without-block")
+      else if hasListTagOnNonPath st.fs then (st, .propfail "build-fails-on-accepted-input class=list-tag-on-non-path")
+      else (st, .ok)
   | ["nss"] =>
     if st.known then (st, .ok) else
     (st, judge impl (renderList ((nsTable st.fs).map renderHex)) none "" false)
